@@ -410,4 +410,128 @@ theorem kexinit_prefix_rejected (k : Kex) (bs : Bytes) (hc : k.cookie.length = 1
 def sampleKex : Wire.Kex := ⟨List.replicate 16 7, [[0x61]], [[0x62]], [[0x63]], [[0x63]], [[0x64]], [[0x64]], [[0x65]], [[0x65]], [[]], [[]], false, 0⟩
 example : (Wire.kexWrite sampleKex).toOption.map (fun bs => (bs.length, Wire.kexParse (bs.take (bs.length - 1)))) = some (69, .error .struct) := by decide +kernel
 
+/-! ### the lenient reader accepts only what a strict reader accepts -/
+
+namespace Strict
+open SshAudit.Wire
+
+/-- `read_string` as a strict reader would do it: the body must be there in full -/
+def readString (bs : Bytes) : Except Exn (Bytes × Bytes) := do
+  let (n, r) ← readInt bs
+  if r.length < n then .error .struct else pure (r.take n, r.drop n)
+
+def readList (bs : Bytes) : Except Exn (List Bytes × Bytes) := do
+  let (s, r) ← Strict.readString bs
+  pure (splitComma s, r)
+
+/-- KEXINIT read strictly: a 16-byte cookie, ten name-lists each of which fits, the flag, the reserved word -/
+def kexParse (bs : Bytes) : Except Exn Kex := do
+  if bs.length < 16 then .error .struct
+  let (cookie, r) := Wire.read 16 bs
+  let (kex, r) ← Strict.readList r
+  let (key, r) ← Strict.readList r
+  let (encC, r) ← Strict.readList r
+  let (encS, r) ← Strict.readList r
+  let (macC, r) ← Strict.readList r
+  let (macS, r) ← Strict.readList r
+  let (compC, r) ← Strict.readList r
+  let (compS, r) ← Strict.readList r
+  let (langC, r) ← Strict.readList r
+  let (langS, r) ← Strict.readList r
+  let (follows, r) ← readBool r
+  let (unused, _) ← readInt r
+  pure { cookie, kex, key, encC, encS, macC, macS, compC, compS, langC, langS, follows, unused }
+
+end Strict
+
+open SshAudit.Wire in
+theorem readList_ok_ne (r : Bytes) (x : List Bytes × Bytes) (h : readList r = .ok x) : r ≠ [] := by
+  intro hr; subst hr
+  simp [readList, readString, readInt, bind, Except.bind] at h
+
+open SshAudit.Wire in
+theorem readBool_ok_ne (r : Bytes) (x : Bool × Bytes) (h : readBool r = .ok x) : r ≠ [] := by
+  intro hr; subst hr
+  simp [readBool, readByte, bind, Except.bind] at h
+
+open SshAudit.Wire in
+/-- a lenient name-list read that leaves something behind did not overrun: the strict read gives the same -/
+theorem readList_strict (r r' : Bytes) (v : List Bytes) (h : readList r = .ok (v, r')) (hne : r' ≠ []) : Strict.readList r = .ok (v, r') := by
+  unfold readList readString at h
+  unfold Strict.readList Strict.readString
+  cases hi : readInt r with
+  | error e => simp [hi, bind, Except.bind] at h
+  | ok nr =>
+    obtain ⟨n, r1⟩ := nr
+    simp only [hi, bind, Except.bind, pure, Except.pure, Except.ok.injEq, Prod.mk.injEq] at h ⊢
+    obtain ⟨hv, hr⟩ := h
+    have : ¬ r1.length < n := by
+      intro hlt
+      apply hne
+      rw [← hr]
+      exact List.drop_eq_nil_iff.mpr (by omega)
+    simp only [this, if_false, Except.ok.injEq, Prod.mk.injEq]
+    exact ⟨hv, hr⟩
+
+open SshAudit.Wire in
+/-- **Whatever the lenient KEXINIT reader accepts, a strict reader accepts with the same result**: although `read(n)` clamps,
+    a payload in which the cookie or any name-list overruns the data is rejected (the next fixed-size field is missing), so a
+    peer cannot get an incomplete key-exchange-init reported. -/
+theorem kexParse_accepts_only_complete (bs : Bytes) (k : Kex) (h : kexParse bs = .ok k) : Strict.kexParse bs = .ok k := by
+  unfold kexParse at h
+  simp only [Wire.read] at h
+  cases e1 : readList (bs.drop 16) with | error e => simp [e1, bind, Except.bind] at h | ok x1 =>
+  obtain ⟨v1, r1⟩ := x1
+  simp only [e1, bind, Except.bind] at h
+  cases e2 : readList r1 with | error e => simp [e2] at h | ok x2 =>
+  obtain ⟨v2, r2⟩ := x2
+  simp only [e2] at h
+  cases e3 : readList r2 with | error e => simp [e3] at h | ok x3 =>
+  obtain ⟨v3, r3⟩ := x3
+  simp only [e3] at h
+  cases e4 : readList r3 with | error e => simp [e4] at h | ok x4 =>
+  obtain ⟨v4, r4⟩ := x4
+  simp only [e4] at h
+  cases e5 : readList r4 with | error e => simp [e5] at h | ok x5 =>
+  obtain ⟨v5, r5⟩ := x5
+  simp only [e5] at h
+  cases e6 : readList r5 with | error e => simp [e6] at h | ok x6 =>
+  obtain ⟨v6, r6⟩ := x6
+  simp only [e6] at h
+  cases e7 : readList r6 with | error e => simp [e7] at h | ok x7 =>
+  obtain ⟨v7, r7⟩ := x7
+  simp only [e7] at h
+  cases e8 : readList r7 with | error e => simp [e8] at h | ok x8 =>
+  obtain ⟨v8, r8⟩ := x8
+  simp only [e8] at h
+  cases e9 : readList r8 with | error e => simp [e9] at h | ok x9 =>
+  obtain ⟨v9, r9⟩ := x9
+  simp only [e9] at h
+  cases e10 : readList r9 with | error e => simp [e10] at h | ok x10 =>
+  obtain ⟨v10, r10⟩ := x10
+  simp only [e10] at h
+  cases eb : readBool r10 with | error e => simp [eb] at h | ok xb =>
+  obtain ⟨fb, rb⟩ := xb
+  simp only [eb] at h
+  have n0 : bs.drop 16 ≠ [] := readList_ok_ne _ _ e1
+  have hlen : ¬ bs.length < 16 := by
+    intro hl; exact n0 (List.drop_eq_nil_iff.mpr (by omega))
+  unfold Strict.kexParse
+  simp only [Wire.read, hlen, if_false, bind, Except.bind, pure, Except.pure]
+  rw [readList_strict _ _ _ e1 (readList_ok_ne _ _ e2)]; simp only
+  rw [readList_strict _ _ _ e2 (readList_ok_ne _ _ e3)]; simp only
+  rw [readList_strict _ _ _ e3 (readList_ok_ne _ _ e4)]; simp only
+  rw [readList_strict _ _ _ e4 (readList_ok_ne _ _ e5)]; simp only
+  rw [readList_strict _ _ _ e5 (readList_ok_ne _ _ e6)]; simp only
+  rw [readList_strict _ _ _ e6 (readList_ok_ne _ _ e7)]; simp only
+  rw [readList_strict _ _ _ e7 (readList_ok_ne _ _ e8)]; simp only
+  rw [readList_strict _ _ _ e8 (readList_ok_ne _ _ e9)]; simp only
+  rw [readList_strict _ _ _ e9 (readList_ok_ne _ _ e10)]; simp only
+  rw [readList_strict _ _ _ e10 (readBool_ok_ne _ _ eb)]; simp only
+  rw [eb]; simp only
+  exact h
+
+-- non-vacuity / the seeded witness: the last name-list's length field one too large is rejected by both readers
+example : (Wire.kexWrite sampleKex).toOption.map (fun bs => (Wire.kexParse bs).toOption.isSome) = some true := by decide +kernel
+
 end SshAudit.C09
